@@ -33,8 +33,13 @@ theorem C15_quickSearch_exact (R : Regex) (sh : GoVal → Bytes) (d : Dump) (p :
   rw [quickSearch_some]
   exact Props.C15.C15_prefix R sh d (quickOpts p)
 
-/-- **The quoted pattern is the literal.**  QuoteMeta(p) reads back (backslash-escapes removed) as `p`, for every byte
-string `p`: no byte of the user's text acts as a regular-expression operator. -/
+/-- **The quoted pattern reads back as the literal.**  Removing the backslash escapes from QuoteMeta(p) gives back `p`,
+for every byte string `p`: QuoteMeta escapes every byte RE2 treats as an operator and nothing else.  (A statement about
+the two Lean functions `quoteMeta` / `unquoteMeta`, i.e. about the TEXT QuickSearch hands to the regex engine; that the
+engine reads an escaped operator byte as that byte is RE2's documented syntax and part of the parameter `R`.  Go's
+`regexp.Compile` additionally rejects a pattern that is not valid UTF-8, so `QuickSearch(dir, "\xff")` returns the
+"invalid pattern" error instead of searching for the byte — in the model: `R.compile` answers `none` and
+`C15_quickSearch_exact` gives the error.) -/
 theorem C15_quoteMeta_literal (p : Bytes) : unquoteMeta (quoteMeta p) = some p :=
   unquoteMeta_quoteMeta p
 
@@ -75,18 +80,19 @@ concatenating sees the same findings in the same order). -/
 theorem C15_scanDatabaseDump (dets : List Detector) (sh : GoVal → Bytes) (d : Dump) :
     Secrets.scanDumpResult dets sh d = d.flatMap (Secrets.scanDatabaseDump dets sh) := rfl
 
-/-- **The secret scan through the wrappers finds planted tokens.**  `Props.C15.C15_secret` transported: under its
-hypotheses on the detector, every cell (of a well-formed dump) whose text has ≥ 8 bytes and contains the token is
-reported by ScanForSecrets, and SearchSecrets returns a result with the cell's coordinates and the raw text. -/
+/-- **The secret scan through the wrappers finds planted tokens.**  `Props.C15.C15_secret` transported: a cell (of a
+well-formed dump) whose text has ≥ 8 bytes and on whose text a detector of the scanner passes its keyword pre-filter and
+reports `r` is reported by ScanForSecrets, and SearchSecrets returns a result with the cell's coordinates and the raw
+text.  (All hypotheses are about the cell's own text, as in `C15_secret`.) -/
 theorem C15_secret_through_wrappers (dets : List Detector) (sh : GoVal → Bytes) (red : Finding → Bytes) (ver : Finding → Bool)
-    (det : Detector) (hdet : det ∈ dets) (tok : Bytes) (r : DetResult) (hk : Proofs.Secrets.KeywordOccurs det tok)
-    (hd : ∀ s, occursIn tok s = true → ∃ found, det.fromData s = some found ∧ r ∈ found)
     (d : Dump) (hw : Dump.WF d) (db tbl : Bytes) (i : Nat) (col : Bytes) (v : GoVal) (row : Spec.Search.Row)
-    (hcell : IsCell d db tbl i col v row) (hlen : 8 ≤ (fmtV sh v).length) (hocc : occursIn tok (fmtV sh v) = true) :
+    (hcell : IsCell d db tbl i col v row) (hlen : 8 ≤ (fmtV sh v).length)
+    (det : Detector) (hdet : det ∈ dets) (hk : keywordPass det (fmtV sh v) = true)
+    (found : List DetResult) (hd : det.fromData (fmtV sh v) = some found) (r : DetResult) (hr : r ∈ found) :
     ∃ fs hs, scanForSecrets dets sh (some d) = some fs ∧ searchSecrets dets sh red ver (some d) = some hs ∧
       ({ detector := r.detector, db := db, table := tbl, col := col, row := i, raw := r.raw } : Finding) ∈ fs ∧
       ∃ h ∈ hs, h.database = db ∧ h.table = tbl ∧ h.rowNum = i ∧ h.column = col ∧ h.value = .str r.raw := by
-  have hf := Props.C15.C15_secret dets sh det hdet tok r hk hd d hw db tbl i col v row hcell hlen hocc
+  have hf := Props.C15.C15_secret dets sh d hw db tbl i col v row hcell hlen det hdet hk found hd r hr
   refine ⟨_, _, rfl, rfl, hf, _, List.mem_map.2 ⟨_, hf, rfl⟩, rfl, rfl, rfl, rfl, rfl⟩
 
 /-- the hypothesis of `C15_search_on_tree` / `C15_scanForSecrets` is satisfiable (every tree satisfies it for a total
